@@ -798,8 +798,13 @@ MANIFEST = dict(
     technique='Coq proof about the IEEE decimal128 specification model (one correct rounding, value lemmas, comparison, integral functions) with model/code correspondence against the C kernel',
     text='The C arithmetic kernel (decNumber) is not transliterated: the model is the IEEE 754-2008 decimal128 specification (exact integer arithmetic, one rounding to '
          '34 digits half-even, emax 6144, gradual underflow, clamp, overflow = null). Theorems (coq/Props/C02.v, closed under the global context) are about that '
-         'model; they include: every rounding result is a nearest decimal128, ties to even, and in format (C02_round34_nearest_even, C02_round34_in_format); division and square root round the exact '
-         'quotient / root once (C02_div_sticky + C02_div_drops_at_least_3; C02_sqrt_correctly_rounded: for every positive finite decimal the result of dsqrt is the nearest-even 34-digit '
+         'model; they include: every rounding result is a nearest decimal128, ties to even, and in format (C02_round34_nearest_even, C02_round34_in_format); '
+         'C02_results_in_format: for all operands in format every operator and method of the model that yields a number (+ - * / modulo, negation, abs, floor, ceiling, truncation, sqrt, '
+         'decimal(), integer powers, with the reduce-after-operation step) gives null or a datum with coefficient < 10^34 and exponent -6176..6111; C02_null_iff_overflow / C02_defined_iff_in_range: '
+         'the rounding step is null exactly when the exact value reaches (10^34 - 1/2) * 10^6111, so null is never returned for a result inside the range; '
+         'division and square root round the exact quotient / root once (C02_div_correctly_rounded: for every pair of finite decimals with non-zero coefficients the result of ddiv is the '
+         'nearest-even 34-digit (or subnormal-grid) rounding of the exact rational quotient, stated on integers by cross-multiplication 2|c*Y - X| <= Y at every common scale, via C02_div_sticky + '
+         'C02_div_drops_at_least_3; C02_sqrt_correctly_rounded: for every positive finite decimal the result of dsqrt is the nearest-even 34-digit '
          'rounding of the exact square root, stated on integers with the squares of the half-way points, via C02_sqrt_sticky + C02_sqrt_root_digits >= 36 root digits; C02_sqrt_defined: never null on a datum). '
          'The tie to the code is the correspondence check: FeelNumber API and FEEL text on boundary-class operand tuples vs the model evaluated in Coq '
          '(cross-checked with libmpdec); no-Infinity/NaN is evaluated directly on the implementation output. exp, ln and inexact powers: validated within 2 ulp only.',
